@@ -1198,7 +1198,12 @@ class PSBTIn:
                     raise ValueError("too many pubkeys in p2wpkh or p2sh-p2wpkh")
                 elif len(self.named_pubs) == 1:
                     named_pub = list(self.named_pubs.values())[0]
-                    if script_pubkey.commands[1] != named_pub.hash160():
+                    # p2wpkh commits to the pubkey in the ScriptPubKey, p2sh-p2wpkh in the RedeemScript
+                    if script_pubkey.is_p2wpkh():
+                        h160 = script_pubkey.commands[1]
+                    else:
+                        h160 = self.redeem_script.commands[1]
+                    if h160 != named_pub.hash160():
                         raise ValueError(
                             "pubkey {} does not match the hash160".format(
                                 named_pub.sec().hex()
